@@ -28,14 +28,22 @@ impl Transport {
 			};
 			(loop_start, loop_end)
 		});
+		let (position, playing) = if reverse {
+			match num_frames
+				.checked_sub(1)
+				.and_then(|last_frame| last_frame.checked_sub(start_position))
+			{
+				Some(position) => (position, true),
+				// the start position lies before the first frame: nothing to play
+				None => (0, false),
+			}
+		} else {
+			(start_position, true)
+		};
 		Self {
-			position: if reverse {
-				num_frames - 1 - start_position
-			} else {
-				start_position
-			},
+			position,
 			loop_region,
-			playing: true,
+			playing,
 		}
 	}
 
